@@ -140,7 +140,9 @@ Qed.
 Lemma store_data_ok s w s2 : store_data s w = Ok s2 -> same_tracker s s2 /\ frame_start s2 = frame_start s.
 Proof.
   unfold store_data, frame_start. destruct (cs_rfv s) as [rf|] eqn:Hrf.
-  - destruct (rf_frame rf) as [fr|] eqn:Hfr; [|discriminate]. intros H. injection H as <-. split; [tr|]. cbn. reflexivity.
+  - destruct (rf_frame rf) as [fr|] eqn:Hfr.
+    + intros H. injection H as <-. split; [tr|]. cbn. reflexivity.
+    + destruct Gen.Facts.data_word_without_frame_is_ignored; [|discriminate]. intros H. injection H as <-. split; [tr|]. rewrite Hrf, Hfr. reflexivity.
   - intros H. injection H as <-. split; [tr|]. rewrite Hrf. reflexivity.
 Qed.
 
